@@ -126,6 +126,14 @@ func c06Body(s *simkit.Sim, rc *simkit.RunCtx) {
 			}
 		}
 	}
+	for _, t := range work {
+		if len(t.Prevs) >= 2 && s.D.Decide("lc-lower", 2) == 1 {
+			if m := h.corpus.Mutant("lc-of-lower-prev", t, prevsOf(t)); m != nil {
+				mutants = append(mutants, m)
+				sample.Mutants["lc-of-lower-prev"]++
+			}
+		}
+	}
 	if nodeKID != "" {
 		// signed by key id with a key that is not the one the DID document lists
 		for i := 0; i < 2; i++ {
